@@ -17,10 +17,10 @@ RULE = ("vec.pardot cases, the executor re-run under `taskset -c <first k CPUs o
         "(length, k)) a case on arbitrary f64 data and/or one on small-integer data whose partial sums are exact (both for lengths <= 64, "
         "alternating above in the quick tier; both everywhere in the thorough tier), plus seeded "
         "longer lengths (201..1200 quick, ..4000 thorough); every case calls dot_f64 3 times (5 thorough), a share of them under spinning background "
-        "threads; special structure (package specB), for every k: lengths 0, 1, 2, k-1, k, k+1, 2k-1, 2k, 2k+1, 5k+k/2, 8k-1 x data classes (constant vectors, "
+        "threads; special structure (package specB), for every k: lengths 0, 1, 2, k-1, k, k+1, 2k-1, 2k, 2k+1, 5k+k/2, 8k-1 x one or two data classes drawn per (k, length) (all ten in the thorough tier) out of (constant vectors, "
         "alternating signs with exact cancellation, zero and -0.0 vectors, one non-zero product at the first / last / middle index, one entry 2^40 among ones "
         "[exact in every order], one entry 2^60 among ones and +-1e16 pairs [every order rounds differently], the ramp 1..n), each such (k, length) also with BOTH "
-        "OPERANDS THE SAME OBJECT v.dot_f64(&v) (kind vec.pardot_self, model term of v.v) and with an equal copy; mismatched sizes in both directions and with an "
+        "OPERANDS THE SAME OBJECT v.dot_f64(&v) (kind vec.pardot_self, model term of v.v) and (a third of them; all in the thorough tier) with an equal copy; mismatched sizes in both directions and with an "
         "empty operand ((1,2), (0,1), (1,0), (k,k+1), (k+1,k), (0,2k), (3k,0)); dot_f64 AFTER an edit history of the vector (push / push_front / insert / pop / resize / "
         "swap / clear / set / assign / sort: capacity differs from length, second operand with spare capacity too; kind vec.pardot_after, model term on the edited vector); "
         "edits INTERLEAVED with dot_f64 calls on one vector in one process (vec.hist with the op dot_f64; search-only, every call bit-identical to the exact integer value); "
@@ -234,13 +234,14 @@ def specb_cases(rng, tier, ks, reps):
         g = rng.fork("specB-k%d" % k)
         # (1) data classes x lengths around the multiples of the worker count; every (k, length) also with both operands the same object
         for n in boundary_lengths(k):
-            for cls in (DATA_CLASSES if thorough else [g.choice(DATA_CLASSES), g.choice(DATA_CLASSES)]):
+            for cls in (DATA_CLASSES if thorough else [g.choice(DATA_CLASSES)] + ([g.choice(DATA_CLASSES)] if g.chance(1, 3) else [])):
                 v, w, exact = structured_data(g, n, cls)
                 cases.append(mk(k, v, w, reps, 2 if g.chance(1, 16) else 0, exact, "data-" + cls))
             v = [ival(g) for _ in range(n)]
             cases.append(mk_self(k, v, reps, 0, True, "same-object"))
-            cases.append(mk(k, v, list(v), reps, 0, True, "equal-copy"))
             if thorough or g.chance(1, 3):
+                cases.append(mk(k, v, list(v), reps, 0, True, "equal-copy"))
+            if thorough or g.chance(1, 4):
                 v = [fval(g) for _ in range(n)]
                 cases.append(mk_self(k, v, reps, 0, False, "same-object"))
         # (2) mismatched sizes in BOTH directions, with an empty operand, around the worker count
